@@ -352,7 +352,7 @@ theorem assemble {opt : WOpts} (hok : WOptsOK opt) {t1 : TableBuilder} {fl : Lis
       obtain ⟨q, hq, rfl, hqf⟩ := hmem d hd
       rw [hkeys q hq] at hk
       have hadded := fbAdded_events opt fl 0 hinv.offs q.1 hqf k hk
-      obtain ⟨r', hr', hmatch⟩ := filter_block_no_false_neg opt.filter hok.filterSound (events opt fl) fb
+      obtain ⟨r', hr', hmatch⟩ := filter_block_no_false_neg_bounded opt.filter hok.filterSound (events opt fl) fb
         hfbrun' (by rw [hF]; exact hFsize) q.1.off k hadded
       rw [hF, hr] at hr'
       injection hr' with hr'
